@@ -90,6 +90,7 @@ PROPERTIES = {
     },
     "C05": {
         "level": "proof",
+        "verus_units": ["fromfloat@*"],
         "kani": ["float::check_to_f32", "float::check_to_f64", "float::check_kind_f32", "float::check_kind_f64",
                  "tofixed::check_tfh_i32", "tofixed::check_tfh_i64", "tofixed::cover_tfh",
                  "floatglue::wrapping_is_overflowing_value",
@@ -98,7 +99,9 @@ PROPERTIES = {
                 + _mods("floatglue", ["g%d" % i for i in range(9)], ["i8_from_f32", "u8_from_f32", "i8_from_f64", "u8_from_f64"]),
         "explanation": "from_to_float_helper equals the IEEE-754 round-to-nearest-even encoder bit for bit, and to_float_kind equals the exact "
                        "rounding of the decoded float, for every bit pattern and all 507 layouts (Kani function contracts, symbolic layout)",
-        "bounded_parts": ["policy glue (private_*_from_float_helper, to_num::<f32/f64>): verified on the 8-bit families (all layouts, every float bit pattern) and two wider layouts; other widths share the macro body"],
+        "bounded_parts": ["the generic `impl ToFixed for f32/f64` / `impl FromFixed for f32/f64` forwarders (traits.rs impl_float!) are verified by Kani through the 8-bit families "
+                          "(all layouts, every float bit pattern) and two wider layouts; the per-family policy helpers private_{saturating,overflowing}_from_float_helper "
+                          "are proved by Verus for all ten families (unit fromfloat)"],
     },
     "C06": {
         "level": "proof",
@@ -127,7 +130,7 @@ PROPERTIES = {
     },
     "C11": {
         "level": "proof",
-        "verus_units": ["arith_widen", "arith128", "widediv", "nofrac", "fracops", "round@*", "transc", "leaves", "cmp@*", "fromfixed@*"],
+        "verus_units": ["arith_widen", "arith128", "widediv", "nofrac", "fracops", "round@*", "transc", "leaves", "cmp@*", "fromfixed@*", "fromfloat@*"],
         "kani": [{"harness": h, "classes": ["panic"]} for h in
                  _mods("arith8", ["i4f4", "i0f8", "u4f4", "u0f8"], FORMS) + ["arith8::abs_forms_i8"] + TFH
                  + ["float::check_to_f32", "float::check_to_f64", "float::check_kind_f32", "float::check_kind_f64"]
